@@ -1,5 +1,29 @@
 # Per-property configuration of bin/check: Lean modules holding the property theorems, level, notes.
 PROPS = {
+    "C20": {
+        "lean": ["Knut.Properties.C20"],
+        "level": "proof",
+        "claim": "PARTIAL: proof on the exact-arithmetic (Rat) model of lib/journal/performance, lib/reports/weights and the two portfolio commands + tolerance correspondence with the float64 "
+                 "code. Lean theorems (all journals, windows, intervals, --last, filters, universes, mappings): C20_weights_share (each commodity is added with value / total value on a period end "
+                 "day), C20_group_sum (a node's weight = what was added at it + the weights of its children; C20_children_rendered_once, C20_nodeWeight_is_wsum), C20_top_sums_to_one (top level sums "
+                 "to 1 on every reported date of the command's report, no weight on the hidden root), C20_returns_every_period (exactly one line per period end of the partition inside the window, "
+                 "in order; uses the C11 tiling lemmas and that the end days are registered before Build), C20_zero_of_day_equation + C20_zero_when_only_external_flows_partial (prices declared on day one only, no annotations, "
+                 "transactions of booking pairs, no --commodity, no zero denominator => EVERY return is exactly 0: the day equation V1-V0 = inflow+outflow is carried through ComputeValues, "
+                 "ComputeFlows' split by sign, the cancellation of internal transfers, and Valuate booking no adjustment while prices rest), C20_ratio_without_flows (telescoping: V1(last)/V0(first)-1 over linked days without flows), C20_days_linked. Decided witnesses of two defects of "
+                 "the real code: C20_filtered_flow_counts, C20_last_folds_earlier_periods. NOT mechanised: the float64 arithmetic; the zero clause per single period and for the general notion of 'prices "
+                 "unchanged'; the equality of V1 with the valued balance (checked against `knut balance -v V --csv -s .` on every case instead). Tie: `portfolio returns`, `portfolio weights "
+                 "--csv` (+ text rendering for the tree depth) and `balance -v` run as subprocesses; returns/weights compared with the exact model after rounding to the printed digits (1-2 units).",
+        "note": "Trusted: Lean kernel; axioms propext, Classical.choice, Quot.sound; float64 vs exact arithmetic bounded only by the per-case tolerance comparison; `Commodity.IsCurrency` is never "
+                "set by the CLI (pickTargets returns the annotation's list); sequential pipeline semantics (C19); yaml/regexp/cobra; sibling order under the weighted sort is compared as a set "
+                "and checked for monotonicity (float ties). Known findings: returns-commodity-filter-counts-filtered-flows, returns-last-folds-earlier-periods.",
+        "rule": "streams portfolio (lifecycle journals over 3-800 days with re-pricing on later and otherwise empty days, x window from/to incl. period ends on days without directives, "
+                "six intervals, --last, account/commodity filters, universe files with nested classes, -m mappings with level 0-3 and suffix, -a), external (constant prices, no annotations: "
+                "every return must be 0), noflow (all transactions on the first day, then only price changes: return = end/start-1 from the balance totals), malformed (lifecycle mutations, "
+                "dropped prices, no -v, inverted windows, duplicate universe entries). class = (stream, outcomes, flag signature, size bucket).",
+        "assumptions": ["exact rational arithmetic in place of float64 (outputs compared after rounding to the printed digits with 1-2 units tolerance)",
+                        "C20_zero_when_only_external_flows_partial assumes the day equation V1-V0 = net external flow, C20_ratio_without_flows non-zero start values"],
+        "trusted": ["known findings: returns-commodity-filter-counts-filtered-flows, returns-last-folds-earlier-periods"],
+    },
     "C16": {
         "lean": ["Knut.Properties.C16"],
         "level": "proof",
@@ -51,7 +75,6 @@ PROPS = {
                  "differ, witness C05_offender_may_differ), C05_days_equiv; Properties/C05Inserts.lean: C05_inserts_perm (unvalued pipeline, closing on or off: the report inserts of two day-equivalent journals are "
                  "permutations of each other; equality fails, kernel-checked witness), C05_run_ok_perm, C05_report_perm and C05_balance_output_perm (for every permutation of the directives of a journal with well-formed "
                  "accounts BalanceCmd.run f ds = BalanceCmd.run f ds' — period, partition, closing days, pipeline, table, text or CSV bytes, failure included). Properties/C05Valued.lean: the same for VALUED reports (C05_inserts_perm_valued, C05_run_ok_perm_valued, C05_report_perm_valued, C05_balance_output_perm_valued: any flags incl. --val, adjustment order and missing-price failures included), for journals without two price directives for one commodity pair on one date (PricesDistinct; needed: kernel-checked witness C05_two_prices_one_day_order_matters). "
-                 ""
                  "Decided on every run as well: each journal is written in several directive orders and include-tree "
                  "layouts (1-5 files, depth <= 3, ./ and ../ paths, sub-directories), loaded by the REAL concurrent loader under different schedule-perturbation seeds (-tags verif), and check "
                  "verdict, balance output (byte for byte) and print output (same directives per date, identical transaction sequence) are compared across all variants and with the model run on the "
